@@ -1,10 +1,12 @@
 """C10 — clean-up passes never change what the function computes."""
+import json
 import os
+from ..modules import SELFMOVEFACTS, MOVEHW
 
-FILES = ["c09.go", "c10.go", "gen_passfacts.go", "gen_branchops.go"]
+FILES = ["c09.go", "c10.go", "c10vec.go", "c10facts.go", "gen_passfacts.go", "gen_branchops.go"]
 LEAN = ["AvoVerif.Props.C10", "AvoVerif.Props.C10Tables", "AvoVerif.Props.C10Sim", "AvoVerif.Props.C10SelfMove",
         "AvoVerif.Props.C10Accept", "AvoVerif.Props.C10Compose", "AvoVerif.Props.C10Pruned",
-        "AvoVerif.Props.C10General"]
+        "AvoVerif.Props.C10General", "AvoVerif.Props.C10Moves"]
 
 # Lower bounds (quick tier, n = 2500) on what the generators produced and the REAL passes did: if a stream dries up, if
 # the passes stop deleting anything, or if pass.Compile starts rejecting the generated functions, the run is not a pass.
@@ -14,7 +16,18 @@ FLOORS = {
     "compile_changed": 4000, "compile_deleted_instr": 3000, "compile_virtual_moves": 6000,
     "deleted_opcode:JMP": 1500, "deleted_opcode:MOVB": 800, "deleted_opcode:MOVW": 800, "deleted_opcode:MOVQ": 3000,
     "call_label": 3000, "labels_nbref": 300, "compile_nbref": 300, "jcc_before_label": 200,
+    # register moves of every opcode / class / width of the form table (c10vec.go).  The sweep is deterministic
+    # (one function per two-register or masked shape of the table); the other two streams are random.
+    "move_shapes": 250, "sweep_shapes": 700, "sweep_mov_shapes": 250, "sweep_masked_shapes": 200,
+    "sweep_cls:r8": 8, "sweep_cls:r16": 25, "sweep_cls:r32": 30, "sweep_cls:r64": 30,
+    "sweep_cls:xmm": 300, "sweep_cls:ymm": 100, "sweep_cls:zmm": 100, "sweep_cls:k": 10,
+    "vecmoves": 1200, "compilevec": 1100,
+    # self-moves AFTER register allocation in functions over virtual registers, per class of the operand
+    "compilevec_self_mode:alloc": 250, "compilevec_self_mode:author": 700, "compilevec_self_mode:phys": 200,
 }
+for _cls in ("r8", "r16", "r32", "r64", "xmm", "ymm", "zmm", "k"):
+    FLOORS["vecmoves_self:" + _cls] = 400
+    FLOORS["compilevec_self:" + _cls] = 80
 
 
 def floors(ctx, stats):
@@ -25,7 +38,8 @@ def floors(ctx, stats):
             ctx.obligation_failures.append((f"c10 sample floor {key}", f"{got} < {lo}: the generator/implementation no longer yields enough of these cases"))
         else:
             ctx.discharged += 1
-    for key in ("build_failed",):
+    # compilevec_shapes_never_self: move shapes of the table that never stood as a self-move after allocation
+    for key in ("build_failed", "sweep_build_failed", "compilevec_shapes_never_self"):
         ctx.obligations += 1
         if stats.get(key, 0) != 0:
             ctx.obligation_failures.append((f"c10 generator {key}", f"{stats.get(key)} (must be 0)"))
@@ -44,6 +58,23 @@ def floors(ctx, stats):
         ctx.obligation_failures.append(("c10 compile stream", f"pass.Compile rejected {stats.get('compile_rejected')} of the generated functions (> 250)"))
     else:
         ctx.discharged += 1
+    ctx.obligations += 1
+    if stats.get("compilevec_rejected", 0) > 100:
+        ctx.obligation_failures.append(("c10 compile stream (vector/opmask virtuals)", f"pass.Compile rejected {stats.get('compilevec_rejected')} of the generated functions (> 100)"))
+    else:
+        ctx.discharged += 1
+
+
+def movehw_summary(ctx):
+    """What the CPU oracle of the move semantics measured on this run (Oracle/MoveHW, harness/c10facts.go)."""
+    try:
+        sm = json.load(open(os.path.join(ctx.dir, "movehw", "summary.json")))
+    except Exception:
+        return
+    ctx.coverage["move_semantics_vs_cpu"] = sm
+    if not sm.get("host_avx512"):
+        ctx.notes.append("the host CPU lacks AVX-512 F/BW/VL/DQ: the move semantics (execMov) was NOT cross-checked against the CPU on this run")
+        ctx.assumptions.append("execMov / execMovMasked not validated against the CPU on this host (no AVX-512)")
 
 
 def exact_agreement(ctx):
@@ -82,7 +113,8 @@ def exact_agreement(ctx):
 def run(ctx):
     if not ctx.build_harness(FILES):
         return
-    ctx.regen([("Gen/PassFacts", "PassFacts"), ("Gen/BranchOps", "BranchOps")])
+    ctx.regen([("Gen/PassFacts", "PassFacts"), ("Gen/BranchOps", "BranchOps"), SELFMOVEFACTS, MOVEHW])
+    movehw_summary(ctx)
     ctx.forbidden_scan()
     if not ctx.build_driver():
         return
@@ -100,8 +132,12 @@ def run(ctx):
         "Every output of the REAL passes is judged by one pass-independent acceptor (Props/C10Accept.lean: walk, walk_sound): the result "
         "must be the original node list with some nodes deleted, and a deleted node must be a comment, a label that no remaining "
         "instruction refers to (by a branch OR by CALL label), a jump (J.. opcode) whose label stands in the label run directly behind it, "
-        "or a register move onto the same register whose execMov semantics is the identity (MOVB/MOVW/MOVQ on general-purpose registers, "
-        "legacy-SSE full 128-bit moves on XMM registers; never MOVL r,r, never MOVQ x,x on vector registers, never AL/AH of one register); "
+        "or a register move onto the same register whose semantics (execMov / execMovMasked, Model/Cleanup.lean) is the identity on every "
+        "register file - exactly (selfMove_noop_iff, maskedSelfMove_noop_iff, noEffectMove_iff): MOVB/MOVW/MOVQ/MOVD on general-purpose "
+        "registers, legacy-SSE moves on XMM registers (MOVAPS.. MOVO MOVOU MOVSD MOVSS: everything above bit 127 is preserved), "
+        "VEX/EVEX moves of a whole ZMM register, KMOVQ k,k, merge-masked EVEX moves of a whole ZMM register; NEVER MOVL r,r, MOVQ/MOVD/VMOVQ "
+        "x,x, a 128- or 256-bit VEX/EVEX move (it clears the register above the vector length up to bit 511), KMOVB/W/D k,k, a "
+        "zeroing-masked move, AL/AH of one register, or any instruction the model gives no move semantics; "
         "independently, on functions with a well-formed CFG, every surviving instruction must keep its successors (model of "
         "LabelTarget+CFG) once deleted instructions are contracted. Streams: (1) generated node lists (jumps directly before their "
         "label, chains of jumps, comments between, conditional jumps before their label, unreferenced and referenced labels, labels "
@@ -110,12 +146,25 @@ def run(ctx):
         "JNE a, JMP b, CALL a} through the same; (3) register-move functions (MOVB/MOVW/MOVL/MOVQ incl. AL/AH of one register, vector "
         "MOVQ/MOVOU/MOVAPS/VMOVDQU, runs of consecutive self-moves, inside loops) through PruneSelfMoves; (4) functions over 2-4 virtual "
         "registers with moves of all widths, loops, jumps to the next label and CALL label through the whole real pass.Compile, judged "
-        "on the registers the allocator chose (self-moves created by the allocator; behavioural check of the pass order). The "
+        "on the registers the allocator chose (self-moves created by the allocator; behavioural check of the pass order); "
+        "(5) a COMPLETE sweep derived from the compiled form table: every opcode with a form OPC t,t (t = r8 r16 r32 r64 xmm ymm zmm k) or a "
+        "masked form OPC t,k,t, with every suffix, as an author-written self-move on low / high / EVEX-only / AH-style registers and, "
+        "for MOV-named opcodes, between two different registers, through PruneSelfMoves (~900 shapes); (6) random functions of moves over "
+        "all MOV-named shapes, register class chosen uniformly, registers 0-31, in loops; (7) functions over vector / opmask / general-purpose "
+        "VIRTUAL registers (also allocated wider than the operand: a YMM move on a ZMM virtual) whose moves cycle through every MOV-named "
+        "shape, through the whole real pass.Compile (self-moves made by the allocator, written by the author on one virtual, physical). "
+        "Regenerated facts: Gen/SelfMoveFacts (what the real pass deletes over the whole sweep; pruned_moves_are_noops proves every "
+        "deleted instruction a no-op move) and Oracle/MoveHW (byte lanes changed by executing each MOV-named self-move on the host CPU; "
+        "movesem_matches_cpu proves the model's prediction equal to the measurement). The "
         "line-by-line comparison with the model passes is INFORMATIONAL (coverage.exact_model_agreement): the property does not pin which "
         "no-ops are deleted. Sample floors per stream are obligations of the run. Non-trivial = something was deleted")
     ctx.assumptions += [
-        "register-to-register MOV semantics (execMov/movKind) is hand-written from the Intel SDM: MOVB/MOVW/MOVQ copy the operand's bytes, "
-        "MOVL zero-extends, MOVQ xmm,xmm clears bits 64-127, MOVAPS/MOVAPD/MOVUPS/MOVUPD/MOVOA/MOVOU xmm,xmm copy bits 0-127 and preserve the rest",
+        "register-to-register MOV semantics (execMov/movKind, execMovMasked) is hand-written from the Intel SDM: MOVB/MOVW/MOVQ copy the operand's bytes, "
+        "MOVL zero-extends, MOVQ/MOVD xmm,xmm clears bits 64-127, legacy SSE moves preserve bits 128 and up, VEX/EVEX moves clear everything "
+        "above the vector length, KMOVx zero-extends to 64 bits, masked moves blend per element (abstracted by an arbitrary lawful Blend); "
+        "on a host with AVX-512 it is cross-checked on every run against execution of every MOV-named self-move of the form table "
+        "(Oracle/MoveHW, movesem_matches_cpu: the changed byte lanes of the full register agree for all rows the model covers, >= 100 rows); "
+        "the CPU probe runs one register per class on one non-zero byte pattern and one opmask value",
         "jumps are the opcodes starting with J (isJumpOpcode); none of them writes a register or a flag (hand-written; C09's "
         "features_are_x86_classes ties avo's branch flags to the same classification)",
         "behaviour preservation is PROVED (a) for the three model passes and their composition in Compile's order (pruneJumps_run, "
@@ -137,7 +186,9 @@ def run(ctx):
         "the pass list of Compile is read from the source by evaluating its initialiser (gen_passfacts.go); passes are matched by the "
         "function name inside the wrapper, e.g. FunctionPass(CFG): a pass stored in a differently named variable is not recognised "
         "(obligation failure, not a silent pass); the order is additionally exercised behaviourally by stream (4)",
-        "allocator-created self-moves are covered by stream (4) on at most 4 virtual GP registers; execution on the CPU is C01's (c01x)",
+        "allocator-created self-moves are covered by stream (4) on at most 4 virtual GP registers and by stream (7) on vector / opmask / GP "
+        "virtuals of every class; execution of whole functions on the CPU is C01's (c01x)",
     ]
-    ctx.trusted += ["harness/c10.go: encoding of nodes/operands into request lines, instruction identity by pointer (uid)",
+    ctx.trusted += ["harness/c10.go, c10vec.go: encoding of nodes/operands into request lines (suffixes inside the opcode token), instruction identity by pointer (uid)",
+                    "harness/c10facts.go: the sweep over the form table (Gen/SelfMoveFacts) and the CPU probe (Oracle/MoveHW: Go assembler + execution)",
                     "Drv/C10.lean: request parsing, cfgVerdicts (the second, CFG-based successor comparison has no soundness theorem; it can only add objections; the walk has walk_sound)"]
